@@ -15,3 +15,4 @@ import Helm.Props.C07
 #print axioms Helm.Props.C07.counterexample_unstructured_adoption_not_stamped
 #print axioms Helm.Props.C07.counterexample_crds_created_before_refusal
 #print axioms Helm.Props.C07.ownership_check_position
+#print axioms Helm.Props.C07.take_ownership_flag_bound
